@@ -336,6 +336,7 @@ class PuritySim:
             self.report("input_mutated", tt, label.split("<-")[0], {"during": what.split(" ")[0], "label": label}, "caller-owned array unchanged " + fp0, "changed " + fp1)
             self.world.restore_owned(rec)  # only reached for a listed known finding
             self.probe("known_finding_state_repaired")
+        self.world.release_args()
         for nid, obj in list(self.world.env.items()):
             now = content_tree(obj)
             base = self.content0.get(nid)
